@@ -46,7 +46,9 @@ def BOUNDED(tier, seed):
         streams = [[rng.randint(-9, 9) + 0.5 * i for i in range(3 * k + 2)],
                    # a value of much larger magnitude passes through the window and leaves it again: the statistics are those of
                    # the values IN the window, with no residue of values that have left it
-                   [1e17] + [1.0] * (3 * k + 1), [0.1] * k + [1e12] + [0.1] * (3 * k), [-1e15, 3.0] + [2.0, 4.0] * (2 * k)]
+                   [1e17] + [1.0] * (3 * k + 1), [0.1] * k + [1e12] + [0.1] * (3 * k), [-1e15, 3.0] + [2.0, 4.0] * (2 * k),
+                   # values on a large offset relative to their spread (timestamps, counters): variance of the values, not of rounding
+                   [1e8 + j for j in range(3 * k + 2)], [1e6 + 1e-3 * (j % 3) for j in range(3 * k + 2)]]
         for stream in streams:
           t = SlidingWindowTracker(k)
           for n, v in enumerate(stream, start=1):
@@ -58,7 +60,10 @@ def BOUNDED(tier, seed):
             var = math.fsum((x - m) ** 2 for x in last) / len(last)
             got = (t.mean, t.var, t.std, t())
             sc = max(1.0, max(abs(x) for x in last))
-            if not (abs(got[0] - m) < 1e-9 * sc and abs(got[1] - var) < 1e-9 * sc * sc and abs(got[2] - math.sqrt(var)) < 1e-9 * sc
+            spread = max(last) - min(last)
+            tol_var = 1e-9 * max(var, spread * spread) + 64 * 2.0 ** -52 * sc * spread + 1e-300
+            tol_std = 1e-9 * max(math.sqrt(var), spread) + math.sqrt(64 * 2.0 ** -52 * sc * spread) * 1e-3 + 1e-12 * sc * (spread > 0) + 1e-300
+            if not (abs(got[0] - m) < 1e-9 * sc and abs(got[1] - var) <= tol_var and abs(got[2] - math.sqrt(var)) <= max(tol_std, 1e-7 * math.sqrt(var))
                     and abs(got[3] - m) < 1e-9 * sc):
                 fails.append({'key': 'ring_buffer', 'summary': f'k={k}: after {n} updates mean/var {got[:2]} but the last {len(last)} values '
                               f'{last} have mean/var {(m, var)}', 'k': k, 'stream': stream[:n], 'observed': {'got': got, 'expected': (m, var)}})
